@@ -263,3 +263,64 @@ def c05(tier):
     rng = random.Random(seed() * 7919 + 5)
     seq2 = [f"{{ int32_t n = RsV; {a} {b} }}" for a, b in itertools.product(SIMPLE, SIMPLE)]
     return c05_assign() + c05_struct() + seq2 + c05_random(tier, rng)
+
+
+# ------------------------------------------------------------------------------------------ C06
+H_N = ["n++", "n--", "clz32(n)", "clo32(n)", "revbit32(n)", "conv_round(n, 3)", "fbrev(n)",
+       "({ n = n * 3 + 1; n; })", "({ int32_t q7 = n + 2; n = q7 * 5; q7; })"]
+H_M = ["m++", "m--", "clz32(m)", "clo32(m | 1)", "({ m = m ^ 9; m + 1; })"]
+H_REG = ["RxV++", "RxV--", "({ RxV = RxV * 2 + 1; RxV; })", "get_usr_field(bundle, HEX_REG_FIELD_USR_OVF)"]
+C06_PRE = "int32_t n = RsV; int32_t m = RtV; RyV = n;"
+C06_POST = "RyV = RyV * 3 + n; RzV = RzV ^ m;"
+
+
+def c06_contexts(h):
+    return [
+        f"int32_t q = {h}; RyV = RyV + q;",
+        f"RyV = {h};",
+        f"RyV = {h} + 7;",
+        f"RyV = (m & 0xff) + {h};",
+        f"if ({h} > 3) {{ RyV = RyV + 1; }} else {{ RyV = RyV - 1; }}",
+        f"RyV = clz32({h});",
+        f"RyV = (RuV > 0) ? {h} : 5;",
+        f"RyV = (RuV > 0) ? 5 : {h};",
+        f"{h};",
+        f"mem_store_u32(RvV, {h});",
+        f"for (i = 0; i < 2; i++) {{ RyV = RyV + {h}; }}",
+        f"if (RuV) {{ RyV = {h}; }}",
+        f"RyV = (RuV && {h});",
+        f"RyV = (RuV || {h});",
+    ]
+
+
+def c06(tier):
+    rng = random.Random(seed() * 7919 + 6)
+    out = []
+    for h in H_N + H_REG:
+        for ctx in c06_contexts(h):
+            out.append(f"{{ {C06_PRE} {ctx} {C06_POST} }}")
+    # two hybrids on independent state in one expression / statement
+    for h1, h2 in itertools.product(H_N, H_M):
+        out.append(f"{{ {C06_PRE} RyV = {h1} + {h2}; {C06_POST} }}")
+    for h1, h2 in itertools.product(H_N[:5], H_M[:3]):
+        out.append(f"{{ {C06_PRE} RyV = clz32({h1}) - {h2}; {C06_POST} }}")
+        out.append(f"{{ {C06_PRE} if ({h1} > {h2}) {{ RyV = 1; }} {C06_POST} }}")
+        out.append(f"{{ {C06_PRE} RyV = (RuV > 0) ? {h1} : {h2}; {C06_POST} }}")
+    # loop steps
+    for step in ["i++", "i = i + 1", "i += 2", "n++", "n--"]:
+        v = "i" if step[0] == "i" else "n"
+        out.append(f"{{ {C06_PRE} for ({v} = 0; {v} < 5 && {v} > -5; {step}) {{ RyV = RyV * 3 + {v}; }} {C06_POST} }}")
+    out += [
+        f"{{ {C06_PRE} fcirc_add(bundle, RxV, siV, MuV, get_corresponding_CS(pkt, MuV)); RyV = RxV; {C06_POST} }}",
+        f"{{ {C06_PRE} EA = RxV; fcirc_add(bundle, RxV, siV, MuV, get_corresponding_CS(pkt, MuV)); RyV = EA; {C06_POST} }}",
+        f"{{ {C06_PRE} RyV = fcirc_add(bundle, RxV, siV, MuV, get_corresponding_CS(pkt, MuV)); {C06_POST} }}",
+        f"{{ {C06_PRE} set_usr_field(bundle, HEX_REG_FIELD_USR_OVF, 1); RyV = get_usr_field(bundle, HEX_REG_FIELD_USR_OVF); {C06_POST} }}",
+        f"{{ {C06_PRE} if (n > 0) {{ set_usr_field(bundle, HEX_REG_FIELD_USR_OVF, 1); }} {C06_POST} }}",
+        f"{{ {C06_PRE} RyV = (n > 0) ? ({{ set_usr_field(bundle, HEX_REG_FIELD_USR_OVF, 1); 7; }}) : 3; {C06_POST} }}",
+        f"{{ {C06_PRE} RyV = (n > 0) ? ((m > 0) ? ({{ set_usr_field(bundle, HEX_REG_FIELD_USR_OVF, 1); 7; }}) : 2) : 3; {C06_POST} }}",
+        f"{{ {C06_PRE} RyV = (n > 0) ? 3 : ((m > 0) ? 2 : ({{ RxV = 9; 7; }})); {C06_POST} }}",
+        f"{{ {C06_PRE} trap(0, 7); {C06_POST} }}",
+        f"{{ {C06_PRE} n++; n++; m--; {C06_POST} }}",
+        f"{{ {C06_PRE} RyV = n++; RyV = RyV + n++; {C06_POST} }}",
+    ]
+    return out
